@@ -841,7 +841,7 @@ func shrink(c Case, failStep int) (Case, result) {
 	if bres.sig == "" {
 		return c, bres
 	}
-	budget := 400
+	budget := 100 // re-executions; must stay far below the no-progress watchdog
 	chunk := len(best.Ops) / 2
 	if chunk < 1 {
 		chunk = 1
@@ -891,7 +891,7 @@ func exec(x *fw.Ctx, c Case) {
 	switch {
 	case res.sig != "":
 		msg := res.msg + " | history: " + strings.Join(res.trace, " ") + " | model graph: " + res.graph
-		if strings.HasPrefix(res.sig, "root=- ") && 6 < res.step && shrunkInProcess < 5 {
+		if strings.HasPrefix(res.sig, "root=- ") && 6 < res.step && shrunkInProcess < 3 {
 			shrunkInProcess++
 			if sc, sr := shrink(c, res.step); sr.sig != "" {
 				msg = fmt.Sprintf("%s | SHRUNK to %d operations (%s): %s: %s | model graph: %s",
